@@ -2021,6 +2021,88 @@ fn tiny_duplicate_checks(sched: &Sched, seed: u64) {
     }
 }
 
+/// C08 for locks smaller than a machine word, stored back to back (several of them start in
+/// the same word): two sorting collections over the same locks in different arrangements must
+/// acquire them in the same order. The locks are not part of the simulated world; their raw
+/// operations are recorded on this thread instead.
+fn tiny_order_checks(sched: &Sched, seed: u64) {
+    use happylock::collection::{BoxedLockCollection, RefLockCollection};
+    type TinyM = happylock::mutex::Mutex<u8, crate::raw::SimRawMutex>;
+    type TinyR = happylock::rwlock::RwLock<u8, crate::raw::SimRawRwLock>;
+    let mut rng = crate::rng::Rng::new(seed ^ 0x0DE2);
+    let ms: Box<[TinyM; 8]> = Box::new(std::array::from_fn(|i| TinyM::new(i as u8)));
+    let rs: Box<[TinyR; 8]> = Box::new(std::array::from_fn(|i| TinyR::new(i as u8)));
+    let mut key = match ThreadKey::get() {
+        Some(k) => k,
+        None => return,
+    };
+    for _ in 0..2 {
+        let k = rng.range(2, 6);
+        let mut a1: Vec<usize> = (0..8).collect();
+        rng.shuffle(&mut a1);
+        a1.truncate(k);
+        let mut a2 = a1.clone();
+        rng.shuffle(&mut a2);
+        let use_m = rng.chance(1, 2);
+        let boxed1 = rng.chance(1, 2);
+        let boxed2 = rng.chance(1, 2);
+        let mut seqs: Vec<Vec<usize>> = Vec::new();
+        for (arr, boxed) in [(&a1, boxed1), (&a2, boxed2)] {
+            let (k2, seq) = crate::raw::recording(|| {
+                macro_rules! go {
+                    ($locks:expr) => {{
+                        let v: Vec<_> = arr.iter().map(|i| &$locks[*i]).collect();
+                        if boxed {
+                            match BoxedLockCollection::try_new(v) {
+                                Some(c) => {
+                                    // dropping the guard releases the locks and then the key
+                                    drop(c.lock(key));
+                                    ThreadKey::get().expect("happysim: key after drop")
+                                }
+                                None => key,
+                            }
+                        } else {
+                            match RefLockCollection::try_new(&v) {
+                                Some(c) => {
+                                    drop(c.lock(key));
+                                    ThreadKey::get().expect("happysim: key after drop")
+                                }
+                                None => key,
+                            }
+                        }
+                    }};
+                }
+                if use_m {
+                    go!(ms)
+                } else {
+                    go!(rs)
+                }
+            });
+            key = k2;
+            let base = if use_m { ms.as_ptr() as usize } else { rs.as_ptr() as usize };
+            let sz = if use_m { std::mem::size_of::<TinyM>() } else { std::mem::size_of::<TinyR>() };
+            seqs.push(seq.iter().filter(|(_, op)| !op.is_release()).map(|(a, _)| (a - base) / sz).collect());
+        }
+        let mut g = sched.lock();
+        g.stats.order_checks_tiny += 1;
+        if seqs[0] != seqs[1] {
+            let d = format!(
+                "two sorting collections ({} and {}) over the same sub-word {} (size {} bytes, stored back to back), listed as {:?} and {:?}, acquire them in different orders: {:?} vs {:?}",
+                if boxed1 { "boxed" } else { "ref" },
+                if boxed2 { "boxed" } else { "ref" },
+                if use_m { "Mutexes" } else { "RwLocks" },
+                if use_m { std::mem::size_of::<TinyM>() } else { std::mem::size_of::<TinyR>() },
+                a1,
+                a2,
+                seqs[0],
+                seqs[1]
+            );
+            g.event(Clause::OrderConflict, 0, d);
+        }
+    }
+    drop(key);
+}
+
 /// Execute one scenario from start to finish in this process.
 pub fn run_scenario(scn: &Scenario) -> RunResult {
     let nthreads = scn.program.threads.len();
@@ -2031,6 +2113,9 @@ pub fn run_scenario(scn: &Scenario) -> RunResult {
     sched.lock().tag_made = vec![0; scn.world.tags];
     if scn.profile == "C07" {
         tiny_duplicate_checks(&sched, scn.cfg.sched_seed);
+    }
+    if scn.profile == "C08" {
+        tiny_order_checks(&sched, scn.cfg.sched_seed);
     }
     let world = World::new(&scn.world, &sched);
     if !world.address_ranks_ok() {
